@@ -1,0 +1,15 @@
+//go:build verif
+
+package stream
+
+import "github.com/rulego/streamsql/types"
+
+// VerifPartitionKey exposes analyticFieldEngine.partitionKey (typed, length-prefixed encoding of
+// the PARTITION BY tuple) for the C14 correspondence check.
+func VerifPartitionKey(partitionBy []string, row map[string]any) string {
+	fe := &analyticFieldEngine{af: types.AnalyticField{Over: &types.OverSpec{PartitionBy: partitionBy}}}
+	return fe.partitionKey(row)
+}
+
+// VerifTypeKey exposes typeKey.
+func VerifTypeKey(v any) string { return typeKey(v) }
